@@ -3,6 +3,7 @@
 package classifier
 
 import (
+	"bytes"
 	"fmt"
 	"sort"
 	"strconv"
@@ -181,6 +182,15 @@ func c11Match(c *vrep.Ctx) {
 		}
 		norm := nc.Normalize(in)
 		var msgs []string
+		// what Normalize returned belongs to the caller: a further call (another text, here also another
+		// classifier) must not change it
+		normKeep := append([]byte(nil), norm...)
+		nc.Normalize([]byte("zqother words of a second text\nthat is normalized afterwards"))
+		NewClassifier(t).Normalize([]byte("zqthird text"))
+		if !bytes.Equal(norm, normKeep) {
+			msgs = append(msgs, fmt.Sprintf("the slice returned by Normalize changed during a later Normalize call: was %.80q, is %.80q", normKeep, norm))
+			norm = normKeep
+		}
 		if m := c11Align(in, norm); m != "" {
 			msgs = append(msgs, "alignment: "+m)
 		}
